@@ -324,8 +324,9 @@ VtkClause(lines, raws, iv, v, t, attrs) ==
 (***************************************************************************)
 \* rows   : <<label (canonical decimal string), <<fragment names>>>>
 \* before : <<path, hash>> of the files under the mesh directory before
-\* after  : [path, hash, st ("json" | "other"), keys, frags] after (".gz"
-\*          removed from path and content decompressed, I4)
+\* after  : [path, hash, st, frags] after (".gz" removed from path and content
+\*          decompressed, I4); st = "json" when the file is a JSON object
+\*          whose "fragments" member is a list of strings (frags)
 LinkName(label, suffix) == label \o suffix
 LinksClause(rows, suffix, before, after) ==
   LET old == {before[i][1] : i \in 1..Len(before)}
@@ -338,8 +339,7 @@ LinksClause(rows, suffix, before, after) ==
      THEN "oracle:LinksExact.names"
      ELSE IF \E i \in new : \E r \in 1..Len(rows) :
                /\ after[i].path = LinkName(rows[r][1], suffix)
-               /\ ~(after[i].st = "json" /\ after[i].keys = <<"fragments">>
-                    /\ after[i].frags = rows[r][2])
+               /\ ~(after[i].st = "json" /\ after[i].frags = rows[r][2])
      THEN "oracle:LinksExact.content"
      ELSE "ok"
 
